@@ -2,11 +2,15 @@
  * background thread and clean-up, serialised by the deterministic scheduler.
  *
  * stdin, one run per line:
- *   run <id> <senders> <lines_per_sender> <delay> <quiesce> seed <seed> <stay_pct> <spurious_permille>
- *   run <id> <senders> <lines_per_sender> <delay> <quiesce> list <k> <pick>*k          (replay of a recorded schedule)
+ *   run <id> <senders> <lines_per_sender> <delay> <quiesce> <wfail> seed <seed> <stay_pct> <spurious_permille>
+ *   run <id> <senders> <lines_per_sender> <delay> <quiesce> <wfail> list <k> <pick>*k  (replay of a recorded schedule)
+ *     wfail   = k > 0: every k-th call of the recording writer's write() reports a failure (the line is recorded first)
  *     delay   = schedule points the main thread lets pass before it stops the senders and calls clean-up
  *     quiesce = 1: before clean-up the main thread waits until every sender has sent everything, then gives
  *               the background thread up to 400 schedule points to drain (lost wake-up check)
+ *     quiesce = 3: NO-ALLOC LOGGER instead of a channel: the threads log through aws_logger_init_noalloc into a
+ *               tmpfile (AWS_LOGF; formatting happens before the logger's mutex is taken); the file is printed as
+ *               `F <hex>` after the run and every call as `O logged t<i> <k> tid=<hex>`
  *     quiesce = 2: FOREGROUND channel instead (senders write under the channel's mutex; the writer yields inside
  *               the write so that an unprotected writer call would be seen overlapping)
  * stdout per run:
@@ -27,6 +31,7 @@
 #include "h_common.h"
 #include <aws/common/log_channel.h>
 #include <aws/common/log_writer.h>
+#include <aws/common/logging.h>
 #include <aws/common/string.h>
 #include <pthread.h>
 #include <stdarg.h>
@@ -90,13 +95,26 @@ static void s_track_release(struct aws_allocator *a, void *p) {
         ds_yield(TAG_DESTROY);
         if (s_line[i][k].state != L_LIVE) {
             s_observe("MONITOR line s%d %d released twice", i, k);
-            return; /* do not hand a double free to the allocator; it is reported */
+            return;
         }
         s_line[i][k].state = L_RELEASED;
         --s_live_lines;
         s_observe("destroy s%d %d", i, k);
+        /* the block itself is kept until the end of the run (s_free_lines) so that a second release of the same
+         * line is seen and reported here instead of being a read of freed memory inside aws_string_destroy */
+        return;
     }
     free(p);
+}
+static void s_free_lines(void) {
+    for (int i = 0; i < MAX_SENDERS; ++i) {
+        for (int k = 0; k < MAX_LINES; ++k) {
+            if (s_line[i][k].state != L_NONE) {
+                free(s_line[i][k].ptr);
+                s_line[i][k].state = L_NONE;
+            }
+        }
+    }
 }
 static struct aws_allocator s_track = {.mem_acquire = s_track_acquire, .mem_release = s_track_release};
 
@@ -115,6 +133,8 @@ static size_t s_written, s_destroyed_at_return;
 static bool s_cleanup_returned;
 static int s_in_writer;
 static bool s_foreground;
+static int s_wfail_period;
+static size_t s_wcalls;
 static int s_rec_write(struct aws_log_writer *writer, const struct aws_string *output) {
     (void)writer;
     if (++s_in_writer != 1) {
@@ -140,6 +160,10 @@ static int s_rec_write(struct aws_log_writer *writer, const struct aws_string *o
     if (s_cleanup_returned) {
         s_observe("MONITOR write after clean-up returned");
     }
+    ++s_wcalls;
+    if (s_wfail_period > 0 && s_wcalls % (size_t)s_wfail_period == 0) {
+        return aws_raise_error(AWS_ERROR_FILE_WRITE_FAILURE);
+    }
     return AWS_OP_SUCCESS;
 }
 static void s_rec_clean_up(struct aws_log_writer *writer) {
@@ -149,7 +173,7 @@ static struct aws_log_writer_vtable s_rec_vtable = {.write = s_rec_write, .clean
 
 /* ---- the run ---- */
 static struct {
-    int senders, lines, delay, quiesce;
+    int senders, lines, delay, quiesce, wfail;
 } s_cfg;
 static struct aws_log_channel s_channel;
 static struct aws_log_writer s_writer;
@@ -174,7 +198,10 @@ static void *s_sender(void *arg) {
         ++s_live_lines;
         int rc = (s_channel.vtable->send)(&s_channel, line);
         if (rc != AWS_OP_SUCCESS) {
-            s_observe("MONITOR send failed");
+            /* "failure to send implies failure to transfer ownership": the caller releases the line,
+             * exactly as s_aws_logger_pipeline_log does */
+            s_observe("sendfail s%d %d", i, k);
+            aws_string_destroy(line);
         }
         ++s_sent;
         s_observe("sent s%d %d", i, k);
@@ -231,12 +258,70 @@ static void s_main(void *arg) {
     }
 }
 
+/* ---- the no-alloc logger driven by several threads ---- */
+extern AWS_THREAD_LOCAL struct {
+    bool is_valid;
+    char repr[AWS_THREAD_ID_T_REPR_BUFSZ];
+} tl_logging_thread_id;
+static struct aws_logger s_na_logger;
+static FILE *s_na_file;
+
+static void s_na_text(char *buf, size_t n, int i, int k) {
+    snprintf(buf, n, "T%d N%d payload ", i, k);
+    size_t l = strlen(buf);
+    for (int j = 0; j < 3 + (i * 11 + k * 5) % 60 && l + 1 < n; ++j) {
+        buf[l++] = (char)('a' + (i * 3 + k + j) % 26);
+    }
+    buf[l] = 0;
+}
+
+static void *s_na_thread(void *arg) {
+    int i = (int)(intptr_t)arg;
+    for (int k = 0; k < s_cfg.lines; ++k) {
+        ds_yield(TAG_IDLE);
+        char text[160];
+        s_na_text(text, sizeof(text), i, k);
+        /* logger level is INFO: every third call is a DEBUG call and must leave no trace */
+        if (k % 3 == 2) {
+            AWS_LOGF_DEBUG(AWS_LS_COMMON_GENERAL, "%s", text);
+            s_observe("filtered t%d %d", i, k);
+        } else if (k % 3 == 1) {
+            AWS_LOGF_ERROR(AWS_LS_COMMON_GENERAL, "%s", text);
+            s_observe("logged t%d %d ERROR tid=%s", i, k, tl_logging_thread_id.is_valid ? tl_logging_thread_id.repr : "?");
+        } else {
+            AWS_LOGF_INFO(AWS_LS_COMMON_GENERAL, "%s", text);
+            s_observe("logged t%d %d INFO tid=%s", i, k, tl_logging_thread_id.is_valid ? tl_logging_thread_id.repr : "?");
+        }
+    }
+    return NULL;
+}
+
+static void s_main_noalloc(void *arg) {
+    (void)arg;
+    s_na_file = tmpfile();
+    HC_CHECK(s_na_file != NULL);
+    struct aws_logger_standard_options o = {.level = AWS_LL_INFO, .file = s_na_file};
+    HC_CHECK(aws_logger_init_noalloc(&s_na_logger, hc_allocator(), &o) == AWS_OP_SUCCESS);
+    aws_logger_set(&s_na_logger);
+    pthread_t th[MAX_SENDERS];
+    for (int i = 0; i < s_cfg.senders; ++i) {
+        HC_CHECK(pthread_create(&th[i], NULL, s_na_thread, (void *)(intptr_t)i) == 0);
+    }
+    for (int i = 0; i < s_cfg.senders; ++i) {
+        pthread_join(th[i], NULL);
+    }
+    aws_logger_set(NULL);
+    aws_logger_clean_up(&s_na_logger);
+    s_cleanup_returned = true;
+    s_observe("cleanup-returned written=0 destroyed=0 pending=0");
+}
+
 int main(void) {
     char *t[HC_MAX_TOKS];
     int n;
     aws_common_library_init(hc_allocator());
     while ((n = hc_next_line(t)) >= 0) {
-        if (strcmp(t[0], "run") != 0 || n < 8) {
+        if (strcmp(t[0], "run") != 0 || n < 9) {
             printf("bad-op\n");
             continue;
         }
@@ -244,20 +329,21 @@ int main(void) {
         s_cfg.lines = atoi(t[3]);
         s_cfg.delay = atoi(t[4]);
         s_cfg.quiesce = atoi(t[5]);
+        s_cfg.wfail = atoi(t[6]);
         HC_CHECK(s_cfg.senders >= 1 && s_cfg.senders <= MAX_SENDERS && s_cfg.lines >= 0 && s_cfg.lines <= MAX_LINES);
         struct ds_config cfg;
         memset(&cfg, 0, sizeof(cfg));
         int *list = NULL;
-        if (!strcmp(t[6], "seed") && n == 10) {
+        if (!strcmp(t[7], "seed") && n == 11) {
             cfg.mode = DS_SEED;
-            cfg.seed = hc_parse_u64(t[7]);
-            cfg.stay_pct = (unsigned)atoi(t[8]);
-            cfg.spurious_permille = (unsigned)atoi(t[9]);
-        } else if (!strcmp(t[6], "list") && n >= 8 && n == 8 + atoi(t[7])) {
-            int k = atoi(t[7]);
+            cfg.seed = hc_parse_u64(t[8]);
+            cfg.stay_pct = (unsigned)atoi(t[9]);
+            cfg.spurious_permille = (unsigned)atoi(t[10]);
+        } else if (!strcmp(t[7], "list") && n >= 9 && n == 9 + atoi(t[8])) {
+            int k = atoi(t[8]);
             list = malloc(sizeof(int) * (size_t)(k ? k : 1));
             for (int j = 0; j < k; ++j) {
-                list[j] = atoi(t[8 + j]);
+                list[j] = atoi(t[9 + j]);
             }
             cfg.mode = DS_EXPLICIT;
             cfg.list = list;
@@ -277,9 +363,11 @@ int main(void) {
         s_stop = s_active = s_senders_done = 0;
         s_in_writer = 0;
         s_foreground = s_cfg.quiesce == 2;
+        s_wfail_period = s_cfg.wfail;
+        s_wcalls = 0;
         long blocks0 = hc_live_blocks();
         ds_init(&cfg);
-        int rc = ds_run(s_main, NULL);
+        int rc = ds_run(s_cfg.quiesce == 3 ? s_main_noalloc : s_main, NULL);
         size_t oi = 0;
         for (size_t i = 0; i < ds_event_count(); ++i) {
             while (oi < s_nobs && s_obs[oi].stamp <= i) {
@@ -290,6 +378,19 @@ int main(void) {
         }
         while (oi < s_nobs) {
             printf("O %s\n", s_obs[oi++].text);
+        }
+        if (s_cfg.quiesce == 3 && s_na_file != NULL) {
+            fflush(s_na_file);
+            long len = ftell(s_na_file);
+            uint8_t *buf = malloc(len > 0 ? (size_t)len : 1);
+            rewind(s_na_file);
+            size_t got = fread(buf, 1, (size_t)(len > 0 ? len : 0), s_na_file);
+            printf("F ");
+            hc_put_hex(buf, got);
+            printf("\n");
+            free(buf);
+            fclose(s_na_file);
+            s_na_file = NULL;
         }
         const int *sched;
         size_t ns = ds_schedule(&sched);
@@ -308,6 +409,7 @@ int main(void) {
         }
         printf("\n");
         fflush(stdout);
+        s_free_lines();
         free(list);
         if (rc != 0) {
             return 3; /* library state is not reusable after a deadlock/livelock */
